@@ -4,7 +4,7 @@ Programs are ASCII-only, so character offsets are byte offsets.
 """
 from .prog import ty_src, UNIT
 
-ATOMIC = ("var", "int", "bool", "str", "unit", "call", "callv", "mcall", "field", "list", "tuple", "some", "none",
+ATOMIC = ("var", "int", "bool", "str", "unit", "call", "callv", "mcall", "field", "list", "tuple", "dict", "some", "none",
           "ok", "err", "variant", "structlit", "throw")
 
 
@@ -74,6 +74,15 @@ class Printer:
             if len(e["items"]) == 1:
                 self.w(",")
             self.w(")")
+        elif k == "dict":
+            self.w("Dict[")
+            for i, (kk, vv) in enumerate(e["items"]):
+                if i:
+                    self.w(", ")
+                self.expr(kk)
+                self.w(" => ")
+                self.expr(vv)
+            self.w("]")
         elif k == "some":
             self.w("Some(")
             self.expr(e["e"])
